@@ -4,6 +4,7 @@ C18 — History changelog and tree diff report exactly the real changes.
 import Rmk.Proofs.DiffHistory
 import Rmk.Proofs.Gindex
 import Rmk.Proofs.Leftovers
+import Rmk.Proofs.DiffOfWrite
 namespace Rmk.C18
 open Rmk
 
@@ -82,5 +83,37 @@ example : getDiff H0 ta tb = [(.leaf [2], .leaf [9])] := by decide
 example : targetHistory H0 [(0, ta), (1, ta), (2, tb), (3, ta)] 6 =
     some [(0, .leaf [2]), (2, .leaf [9]), (3, .leaf [2])] := by decide
 example : Injective2 (fun (a b : Chunk) => a.length.toUInt8 :: a ++ b) ∨ True := .inr trivial
+
+/-! ### the diff of a tree with its written version -/
+
+/-- THE DIFF REPORTS EXACTLY THE WRITE: if `m` is `n` with `v` written at path `p` (where `old` was) and the roots
+    along the path changed, the positioned diff of `n` and `m` is the diff of `old` and `v`, moved to `p` -/
+theorem diff_of_write (H : Hash) (n m : Node) (p : List Bool) (old v : Node)
+    (hg : getPath n p = some old) (hs : setPath H false n p v = some m)
+    (hd : ∀ k ≤ p.length,
+      ((getPath n (p.take k)).map (·.root H)) ≠ ((getPath m (p.take k)).map (·.root H))) :
+    getDiffPos H n m = (getDiffPos H old v).map (fun (q, x, y) => (p ++ q, x, y)) :=
+  DiffOfWrite.diffPos_of_write H n m p old v hg hs hd
+
+/-- (for a collision-free hash the condition is just "the written subtree has another root") -/
+theorem diff_of_write_inj (H : Hash) (hH : Injective2 H) (n m : Node) (p : List Bool) (old v : Node)
+    (hg : getPath n p = some old) (hs : setPath H false n p v = some m) (hne : old.root H ≠ v.root H) :
+    getDiff H n m = getDiff H old v :=
+  DiffOfWrite.diff_of_write_inj H hH n m p old v hg hs hne
+
+/-- a write of something with the same root is not reported at all -/
+theorem diff_of_noop_write (H : Hash) (n m : Node) (p : List Bool) (old v : Node)
+    (hg : getPath n p = some old) (hs : setPath H false n p v = some m)
+    (he : old.root H = v.root H) : getDiff H n m = [] :=
+  DiffOfWrite.diff_of_noop_write H n m p old v hg hs he
+
+/-- an expanding write through a zero summary is reported as ONE pair: the summary against the expanded subtree -/
+theorem diff_of_expanding_write (H : Hash) (n m : Node) (p q r : List Bool) (d : Nat) (v : Node)
+    (hp : p = q ++ r)
+    (hg : getPath n q = some (.leaf (zeroHash H d))) (hs : setPath H true n p v = some m)
+    (hd : ∀ k ≤ q.length,
+      ((getPath n (q.take k)).map (·.root H)) ≠ ((getPath m (q.take k)).map (·.root H))) :
+    getDiffPos H n m = [(q, .leaf (zeroHash H d), expandSet H r v)] :=
+  DiffOfWrite.diffPos_of_expanding_write H n m p q r d v hp hg hs hd
 
 end Rmk.C18
